@@ -4,7 +4,7 @@
    only; 2/3 = violates the oracle (the property statement read on the plan: a reply sent well before the deadline is
    delivered, with the ID/attempt correlation; nothing but a timeout after exhausted retries or a cancellation otherwise). *)
 From Coq Require Import List NArith Bool.
-From LE Require Import Base.Corr P2P.ReqResp.
+From LE Require Import Base.Corr P2P.ReqResp Gen.ReqResp.
 Import ListNotations.
 Local Open Scope N_scope.
 
@@ -65,12 +65,12 @@ Definition spec_ok (pl : list aplan) (cancel strict : bool) (o : obs) (stats : b
     if cancel then (cls =? 2) && (attempts =? 1)
     else match first_in_time pl 1 with
          | Some (k, a) => (cls =? 0) && (attempts =? k) && (patt =? k) && (mine =? 1) && kind_allowed a kind
-         | None => (cls =? 1) && (1 <=? attempts) && (attempts <=? budget)
+         | None => (cls =? 1) && (attempts =? budget) && (budget =? gen_max_retries + 1)   (* the whole budget, pinned *)
          end
   else
     (* latency around the timeout: either outcome is legal, but the correlation and the budget are not negotiable *)
     ((cls =? 0) && (patt =? attempts) && (mine =? 1) && ((kind =? 1) || (kind =? 2) || (kind =? 3)) && (1 <=? attempts) && (attempts <=? budget))
-    || ((cls =? 1) && (1 <=? attempts) && (attempts <=? budget))
+    || ((cls =? 1) && (attempts =? budget))
     || (cancel && (cls =? 2) && (1 <=? attempts) && (attempts <=? budget)).
 
 Definition check_call (c : c17_case) : N :=
